@@ -83,11 +83,26 @@ def impl(case):
         except Exception:
             pass
     # (the packing helper is private: compared when it exists under this name, otherwise the encoded message alone speaks)
+    cfg_obj = None
+    if case['seed'] % 3 == 1:
+        # the configuration OBJECT used for the calls below was used before with other carriers and then edited in place
+        # back to the packaged content (two carriers had been plain text elements while an earlier message was encoded)
+        import copy
+        from cardutil.config import config
+        cfg_obj = copy.deepcopy(config['bit_config'])
+        for b in (('62', '123') if case['seed'] % 2 else ('48', '124')):
+            cfg_obj[b].pop('field_processor', None)
+        try:
+            iso8583.loads(iso8583.dumps({'MTI': '1240', 'PDS0001': 'a' * 600, 'PDS0002': 'b' * 600, 'PDS0003': 'c' * 600}, iso_config=cfg_obj), iso_config=cfg_obj)
+        except Exception:
+            pass
+        for b in ('48', '62', '123', '124'):
+            cfg_obj[b]['field_processor'] = 'PDS'
     res = {'pack': outcome(lambda: iso8583._pds_to_de(dict(m)), lambda l: ','.join(hs(x).replace('-', '_') for x in l) or '-') if hasattr(iso8583, '_pds_to_de') else 'ABSENT',
-           'dumps': outcome(lambda: iso8583.dumps(dict(m)), hb)}
+           'dumps': outcome(lambda: iso8583.dumps(dict(m), iso_config=cfg_obj), hb)}
     if res['dumps'].startswith('OK '):
         b = bytes.fromhex(res['dumps'][3:])
-        res['loads'] = outcome(lambda: iso8583.loads(b), iu.dict_text)
+        res['loads'] = outcome(lambda: iso8583.loads(b, iso_config=cfg_obj), iu.dict_text)
     return res
 
 
